@@ -49,3 +49,9 @@ check('C05',
       'Stub: diff.get_model (field default is a symbolic flag/value). db_table/db_tablespace/pk_column changes are outside the input space. Signature level only (hints are simulated, not lowered to SQL). db_column values come from a 3-entry pool. Trusted: CrossHair+z3.',
       'CrossHair symbolic execution (z3) of signature.py diff/__eq__/clone, diff.py Diff.evolution and mutations simulate(); known-finding regions excluded inside the harness',
       design_ref='5.4')
+
+check('C13',
+      'Bounded model checking of serialize_to_python and EvolveAppTask.get_evolution_content: value shapes (containers, Q trees incl. XOR/negation/single-child nesting, F/Value/combined expressions, Deferrable, constraints, indexes) and mutation shapes are symbolic choices; the produced text is evaluated / exec\'d as an evolution module and compared with the original (type, deconstruction / Q normal form, re-rendered hint, simulate() effect). The NullFieldInitialCallback placeholder must render to text that refuses to run.',
+      'Primitive contents come from finite pools (repr() realises them); "same generated SQL" is outside. The oracle (eval/exec + comparison) runs untraced. Trusted: CrossHair+z3, the Q normal form in harness/c13.py.',
+      'CrossHair symbolic execution (z3) of serialization.py serialize_to_python and get_evolution_content over symbolic shape choices; counterexamples replayed concretely',
+      design_ref='5.10')
